@@ -52,9 +52,14 @@ def wallet_history(job):
     logging.disable(logging.CRITICAL)
     from bitcoinlib.wallets import Wallet, WalletError
     from bitcoinlib.keys import HDKey, Key
-    from bitcoinlib.transactions import TransactionError
+    from bitcoinlib.transactions import TransactionError, Transaction
     EXT = [Key(900001 + i, network='bitcoinlib_test').address() for i in range(3)]
     seed, kind, nops = job
+    # the library draws change amounts and output orders from the global generators: seeded, so that a history replays
+    import random as _random
+    import numpy as _numpy
+    _random.seed(seed)
+    _numpy.random.seed(seed % 2 ** 32)
     scheme, wt = kind
     rng = random.Random(seed)
     d = tempfile.mkdtemp(prefix='w_', dir=os.environ['BCL_DATA_DIR'])
@@ -80,6 +85,7 @@ def wallet_history(job):
     stored = []         # txids of stored (sent) transactions
     unsent = []         # WalletTransaction objects created but not broadcast
     replace = []        # broadcast transactions signalling replace-by-fee, to be replaced
+    imports = []        # unsent transactions to be imported again (raw / object / dictionary) and sent
     spent_outpoints = []    # (txid, n, value) of outputs spent by transactions this wallet has sent
     fake = [0]
 
@@ -224,6 +230,8 @@ def wallet_history(job):
                     replace.append((t, recips))
             elif not broadcast and kind_ != 'sweep' and (rng.random() < 0.35 or force[0] == 'spend_most_unsent'):
                 unsent.append((t, recips))
+            elif not broadcast and rng.random() < 0.5:
+                imports.append((t, recips))
             text += ' -> inputs %s outputs %s fee %s%s' % (ev['x']['ins'], ev['x']['outs'], ev['x']['fee'], ' PUSHED' if t.pushed else '')
         else:
             text += ' -> refused: %s' % err
@@ -240,7 +248,8 @@ def wallet_history(job):
         while unsent:               # bump the fee of the transaction just created (not broadcast): same request, new transaction
             t, recips = unsent.pop()
             kw, want = bump_args(t)
-            q2 = dict(q, fee=want, feemin=0, feemax=0, explicit=[], above=int(t.fee))
+            # an input added by the bump is selected with bumpfee's own default (min_confirms=1), not with the request's
+            q2 = dict(q, fee=want, feemin=0, feemax=0, explicit=[], above=int(t.fee), minconf=min(q['minconf'], 1))
             ev = {'op': 'tx', 'q': q2, 'created': False, 'stored': False, 'tnum': 0, 'kind': 'bumpfee', 'x': {'ins': [], 'outs': [], 'fee': 0, 'vsize': 0}}
             try:
                 t.bumpfee(**kw)
@@ -250,11 +259,41 @@ def wallet_history(job):
             except (WalletError, TransactionError) as e:
                 text = 'bumpfee(%s) refused: %r' % (kw, e)
             record(ev, text)
+        while imports:              # the unsent transaction comes back (signed elsewhere) and is imported, then sent
+            t, recips = imports.pop()
+            route = rng.choice(['raw', 'object', 'dict'])
+            q2 = dict(q, fee=-1, feemin=0, feemax=0, explicit=[[txnum(table, i.prev_txid.hex()), i.output_n_int] for i in t.inputs], minconf=0)
+            ev = {'op': 'tx', 'q': q2, 'created': False, 'stored': False, 'tnum': 0, 'kind': 'import_' + route,
+                  'x': {'ins': [], 'outs': [], 'fee': 0, 'vsize': 0}}
+            try:
+                if route == 'raw':
+                    rt = w.transaction_import_raw(t.raw_hex())
+                elif route == 'object':
+                    rt = w.transaction_import(Transaction.parse_hex(t.raw_hex(), network=w.network.name) if rng.random() < 0.5 else t)
+                else:
+                    rt = w.transaction_import(t.as_dict())
+                ev['created'] = True
+                ev['x'] = txresult(rt, recips)
+                same = rt.txid == t.txid
+                rt.send()
+                if rt.pushed:
+                    ev['stored'] = True
+                    ev['tnum'] = txnum(table, rt.txid)
+                    stored.append(rt.txid)
+                    spent_outpoints.extend((i.prev_txid.hex(), i.output_n_int, int(i.value)) for i in rt.inputs)
+                    ev['raw'] = rt.raw_hex()
+                text = 'transaction_import (%s) of that transaction -> inputs %s outputs %s fee %s%s%s' % (
+                    route, ev['x']['ins'], ev['x']['outs'], ev['x']['fee'], ' PUSHED' if rt.pushed else ' not pushed: %s' % rt.error,
+                    '' if same else ' TXID DIFFERS')
+                ev['same_txid'] = same
+            except (WalletError, TransactionError, ValueError, KeyError) as e:
+                text = 'transaction_import (%s) refused: %r' % (route, e)
+            record(ev, text)
         while replace:              # replace-by-fee of the transaction just broadcast: the old one leaves the wallet, the new one is stored
             t, recips = replace.pop()
             kw, want = bump_args(t)
             old_txid, old_tnum = t.txid, txnum(table, t.txid)
-            q2 = dict(q, fee=want, feemin=0, feemax=0, explicit=[], above=int(t.fee), minconf=0)
+            q2 = dict(q, fee=want, feemin=0, feemax=0, explicit=[], above=int(t.fee), minconf=min(q['minconf'], 1))
             err = None
             try:
                 t.bumpfee(broadcast=True, **kw)
@@ -263,7 +302,9 @@ def wallet_history(job):
             gone = w.transaction(old_txid) is None
             if gone:
                 stored.remove(old_txid)
-                record({'op': 'delete', 'tnum': old_tnum}, 'bumpfee(%s, broadcast=True): transaction tx%d removed from the wallet' % (kw, old_tnum))
+                # removal and replacement happen inside one library call: there is no observation between the two events
+                record({'op': 'delete', 'tnum': old_tnum, 'noobs': True},
+                       'bumpfee(%s, broadcast=True): transaction tx%d removed from the wallet' % (kw, old_tnum))
             ev = {'op': 'tx', 'q': q2, 'created': False, 'stored': False, 'tnum': 0, 'kind': 'rbf', 'x': {'ins': [], 'outs': [], 'fee': 0, 'vsize': 0}}
             if err is None and t.txid != old_txid:
                 ev['created'] = True
